@@ -115,6 +115,9 @@ impl<'a, T: Read + Write + Seek> ImageWriter<'a, T> {
         properties: VisualReferenceImageProperties,
         mask: Option<&mut dyn Read>,
     ) -> Result<()> {
+        if self.finalized {
+            Error::invalid("The image was already finalized, no more data can be added")?
+        }
         let data = Blob::write(self.writer, image)?;
         let blob = ImageBlob { data, format };
         let mask = if let Some(mask_data) = mask {
@@ -145,6 +148,9 @@ impl<'a, T: Read + Write + Seek> ImageWriter<'a, T> {
         properties: PinholeImageProperties,
         mask: Option<&mut dyn Read>,
     ) -> Result<()> {
+        if self.finalized {
+            Error::invalid("The image was already finalized, no more data can be added")?
+        }
         if self.image.projection.is_some() {
             Error::invalid("A projected image is already set")?
         }
@@ -178,6 +184,9 @@ impl<'a, T: Read + Write + Seek> ImageWriter<'a, T> {
         properties: SphericalImageProperties,
         mask: Option<&mut dyn Read>,
     ) -> Result<()> {
+        if self.finalized {
+            Error::invalid("The image was already finalized, no more data can be added")?
+        }
         if self.image.projection.is_some() {
             Error::invalid("A projected image is already set")?
         }
@@ -211,6 +220,9 @@ impl<'a, T: Read + Write + Seek> ImageWriter<'a, T> {
         properties: CylindricalImageProperties,
         mask_data: Option<&mut dyn Read>,
     ) -> Result<()> {
+        if self.finalized {
+            Error::invalid("The image was already finalized, no more data can be added")?
+        }
         if self.image.projection.is_some() {
             Error::invalid("A projected image is already set")?
         }
